@@ -80,7 +80,7 @@ impl Op {
                 _ => "ckks_reallocate_limbs_checked",
             },
             Op::Align { .. } => "ckks_align_assign",
-            Op::Pt { kind, assign, .. } => match (kind % 5, assign) {
+            Op::Pt { kind, assign, .. } => match (kind % 6, assign) {
                 (0, false) => "ckks_add_pt_vec_rnx_into",
                 (0, true) => "ckks_add_pt_vec_rnx_assign",
                 (1, false) => "ckks_sub_pt_vec_rnx_into",
@@ -89,6 +89,8 @@ impl Op {
                 (2, true) => "ckks_mul_pt_vec_rnx_assign",
                 (3, false) => "ckks_add_pt_const_rnx_into",
                 (3, true) => "ckks_add_pt_const_rnx_assign",
+                (5, false) => "ckks_sub_pt_const_rnx_into",
+                (5, true) => "ckks_sub_pt_const_rnx_assign",
                 (_, false) => "ckks_mul_pt_const_rnx_into",
                 (_, true) => "ckks_mul_pt_const_rnx_assign",
             },
@@ -331,7 +333,7 @@ fn op_strategy() -> impl Strategy<Value = Op> {
         5 => (0u8..3, any::<u8>(), any::<u8>(), any::<u8>(), 1u8..=10, any::<bool>()).prop_map(|(kind, dst, a, b, limbs, assign)| Op::Bin { kind, dst, a, b, limbs, assign }),
         6 => (0u8..9, any::<u8>(), any::<u8>(), 1u8..=10, any::<u8>(), any::<bool>()).prop_map(|(kind, dst, a, limbs, arg, assign)| Op::Un { kind, dst, a, limbs, arg, assign }),
         1 => (any::<u8>(), any::<u8>()).prop_map(|(a, b)| Op::Align { a, b }),
-        4 => (0u8..5, any::<u8>(), any::<u8>(), 1u8..=10, 8u8..=44, 3u8..=10, any::<u64>(), any::<bool>()).prop_map(|(kind, dst, a, limbs, ld, ptlb, seed, assign)| Op::Pt { kind, dst, a, limbs, ld, ptlb, seed, assign }),
+        4 => (0u8..6, any::<u8>(), any::<u8>(), 1u8..=10, 8u8..=44, 3u8..=10, any::<u64>(), any::<bool>()).prop_map(|(kind, dst, a, limbs, ld, ptlb, seed, assign)| Op::Pt { kind, dst, a, limbs, ld, ptlb, seed, assign }),
     ]
 }
 
@@ -351,7 +353,7 @@ fn strategy() -> BoxedStrategy<Case> {
         .boxed()
 }
 
-pub const RULE: &str = "cases = (backend, one of two parameter sets per family (radix 19/16 for FFT64, 52/30 for NTT120; N = 64/32; key dsize 1/2), a straight-line program: two fresh encryptions (independent limb counts 3..8, log_delta 14..44, plaintext budget 5..11, generated slot values) followed by 1..13 generated steps over a 4-register file among: encrypt (plaintext budget up to 34 bits, slot magnitudes up to 2^31, so that both integer widths of the encoder / decoder occur), add/sub/mul (into a destination of 1..10 limbs or in place), neg, square, add / sub / mul with an encoded plaintext vector or a complex constant (RNX forms, independent plaintext precision), mul_pow2, div_pow2, rotate (keys present for some rotations, absent for others), conjugate, rescale, align, compact_limbs (result must have the minimum limb count), reallocate_limbs). Oracle after every step: Result matches the model of the budget algebra (Ok, or the expected CKKSCompositionError kind; never a panic; metadata unchanged when an in-place step fails), (log_delta, log_budget) equal the model, log_delta + log_budget <= stored precision, and every live register decrypts and decodes to the shadow program on complex f64 within the tracked worst-case error bound (proportional to 2^-log_delta). non-trivial = at least two executed steps after adaptation. Sub-check composite_ops: multiply-add / multiply-subtract with a ciphertext, an encoded vector or a constant (six forms) must equal, bit for bit and in their Result, the product into a buffer shaped like the destination followed by the in-place sum; ckks_add_many (1..4 inputs) against the chain of two-operand additions (Result, metadata) and the f64 sum; ckks_dot_product_ct (1..4 pairs, one log_delta per side) against the model of the budget algebra and the f64 dot product; ckks_mul_many (1..4 factors) against invariants and the f64 product. Sub-check encode_decode_roundtrip: slot encoding -> to_znx -> decode_from_znx -> slot decoding for f64 and f128, N 4..512, radix 4..52, log_delta 6..120, log_budget 3..60, magnitudes up to a quarter of the budget: identity within N*2^-log_delta + 64*N*eps*magnitude, and an error value (never a panic or a wrapped value) beyond the element type's precision.";
+pub const RULE: &str = "cases = (backend, one of two parameter sets per family (radix 19/16 for FFT64, 52/30 for NTT120; N = 64/32; key dsize 1/2), a straight-line program: two fresh encryptions (independent limb counts 3..8, log_delta 14..44, plaintext budget 5..11, generated slot values) followed by 1..13 generated steps over a 4-register file among: encrypt (plaintext budget up to 34 bits, slot magnitudes up to 2^31, so that both integer widths of the encoder / decoder occur), add/sub/mul (into a destination of 1..10 limbs or in place), neg, square, add / sub / mul with an encoded plaintext vector, add / sub / mul with a complex constant (RNX forms, independent plaintext precision), mul_pow2, div_pow2, rotate (keys present for some rotations, absent for others), conjugate, rescale, align, compact_limbs (result must have the minimum limb count), reallocate_limbs). Oracle after every step: Result matches the model of the budget algebra (Ok, or the expected CKKSCompositionError kind; never a panic; metadata unchanged when an in-place step fails), (log_delta, log_budget) equal the model, log_delta + log_budget <= stored precision, and every live register decrypts and decodes to the shadow program on complex f64 within the tracked worst-case error bound (proportional to 2^-log_delta). non-trivial = at least two executed steps after adaptation. Sub-check composite_ops: multiply-add / multiply-subtract with a ciphertext, an encoded vector or a constant (six forms) must equal, bit for bit and in their Result, the product into a buffer shaped like the destination followed by the in-place sum; ckks_add_many (1..4 inputs) against the chain of two-operand additions (Result, metadata) and the f64 sum; ckks_dot_product_ct (1..4 pairs, one log_delta per side) against the model of the budget algebra and the f64 dot product; ckks_mul_many (1..4 factors) against invariants and the f64 product. Sub-check encode_decode_roundtrip: slot encoding -> to_znx -> decode_from_znx -> slot decoding for f64 and f128, N 4..512, radix 4..52, log_delta 6..120, log_budget 3..60, magnitudes up to a quarter of the budget: identity within N*2^-log_delta + 64*N*eps*magnitude, and an error value (never a panic or a wrapped value) beyond the element type's precision.";
 
 fn main() {
     install_panic_hook();
